@@ -56,6 +56,7 @@ def run(tier, wd):
     pols = sorted(set(c["policy"] for c, _ in rows))
     tc.add_tree(rep, wd, binpath, alphabet, pols, "c14-dash", T.dash_tree(), trs, rows)
     tc.add_tree(rep, wd, binpath, alphabet, pols, "c14-blank", T.blank_tree(), trs, rows)
+    tc.add_tree(rep, wd, binpath, alphabet, pols, "c14-alias", T.alias_tree(), trs, rows)
     rows_h = tc.add_tree(rep, wd, binpath, alphabet, ["continue"], "c14-hidden", T.hidden_tree(), trs, rows)
     rep.cov["rerun_cases"] += tc.rerun(rep, wd, binpath, trs, [(c, r) for c, r in rows_h if c["kind"] == "help"],
                                        lambda c: [["-h"], ["bogus"], c["argv"]], CLAUSES, "after earlier requests")
